@@ -293,7 +293,14 @@ func designatedStateModifierCase(ctx context.Context, rep *mon.Reporter, rng *mo
 					keys = append(keys, p[0])
 				}
 				o := compose.WithStateModifier(f)
+				var perPath []compose.Option
 				switch {
+				case len(nps) > 1 && rng.Intn(3) == 0:
+					// several WithStateModifier options in one call, each designated to one graph
+					how = "one WithStateModifier option per path"
+					for _, np := range nps {
+						perPath = append(perPath, compose.WithStateModifier(f).DesignateNodeWithPath(np))
+					}
 				case allTop && rng.Bool():
 					o, how = o.DesignateNode(keys...), "DesignateNode"
 				case rng.Bool():
@@ -304,9 +311,12 @@ func designatedStateModifierCase(ctx context.Context, rep *mon.Reporter, rng *mo
 						o = o.DesignateNodeWithPath(np)
 					}
 				}
-				if rng.Bool() {
+				switch {
+				case perPath != nil:
+					opts = append(opts, perPath...)
+				case rng.Bool():
 					opts = append(opts, o)
-				} else {
+				default:
 					opts = append([]compose.Option{o}, opts...)
 				}
 			}
